@@ -115,6 +115,25 @@ var (
 	points     []testPoint
 )
 
+// shortCoordScalars: scalars whose public point has a coordinate with TWO leading zero bytes (about
+// one key in 65536 per coordinate; found once by scanning k = 2..400000 and re-verified here), in
+// both parities of Y (k and n-k share X and have opposite Y parity).
+func shortCoordScalars() []*big.Int {
+	var out []*big.Int
+	for _, e := range []struct {
+		k     int64
+		coord byte
+	}{{44629, 'X'}, {63439, 'X'}, {41192, 'Y'}, {394851, 'Y'}} {
+		k := big.NewInt(e.k)
+		p := ref.SecBaseMulFast(k)
+		if e.coord == 'X' && p.X.BitLen() > 240 || e.coord == 'Y' && p.Y.BitLen() > 240 {
+			panic(fmt.Sprintf("harness: scalar %d does not have a short %c coordinate", e.k, e.coord))
+		}
+		out = append(out, k, new(big.Int).Sub(ref.SecN, k))
+	}
+	return out
+}
+
 func testPoints() []testPoint {
 	pointsOnce.Do(func() {
 		ks := []*big.Int{big.NewInt(1), big.NewInt(2), big.NewInt(3),
@@ -122,6 +141,9 @@ func testPoints() []testPoint {
 			new(big.Int).Lsh(big.NewInt(1), 128), new(big.Int).Lsh(big.NewInt(1), 255),
 			new(big.Int).SetBytes([]byte("verif-key-0123456789abcdef-xyz!!"))}
 		for _, k := range ks {
+			points = append(points, testPoint{k, ref.SecBaseMul(k)})
+		}
+		for _, k := range shortCoordScalars() {
 			points = append(points, testPoint{k, ref.SecBaseMul(k)})
 		}
 		// scan k = 4.. for short coordinates (leading zero byte), by repeated addition
